@@ -132,6 +132,10 @@ def run_case(c, rng):
     # EpanetSimulator must not alter the definition either
     if rng.random() < 0.6:
         wn.reset_initial_values()
+        if wn.options.time.report_timestep == 'ALL':
+            # 'ALL' is a WNTRSimulator reporting mode (the INP writer cannot express it): give the EPANET run a numeric report step
+            wn.options.time.report_timestep = wn.options.time.hydraulic_timestep
+            d0 = norm(wn.to_dict())
         te = simobs.run_epanet(wn)
         if te.exception is None:
             dict_check('EpanetSimulator run', 'epanet_dict_checks')
